@@ -752,6 +752,221 @@ def cacheRunSealing {α} (nSlice : Nat) (items : List α) : Option (CacheSt α) 
   | _, [] => []
   | st, k :: ks => let r := cacheReadSealing nSlice items st k; r.2 :: cacheRunSealing nSlice items r.1 ks
 
+/-! # Phase 5 -/
+
+/-! ## Random / ordering filters as downstream branches of a shared Cache, several environments
+
+How much of its input a downstream filter pulls out of the cache generator is part of the code:
+`Riffle.filter` is a plain function (`interactions = list(interactions)` runs when the pipeline is
+READ, even if the consumer never takes an item); `Shuffle.filter`, `Sort.filter` and
+`Reservoir.filter` are generators that materialise their whole input at their first `next`
+(`peek_first` + `list`, `sorted`, the Algorithm-L loop that runs into `StopIteration`) and do nothing
+when they are never advanced; `Reservoir(0)` never touches its input (`yield from []`). -/
+inductive Pull
+  | eager
+  | onFirst
+  | never
+deriving DecidableEq, Repr
+
+/-- items pulled from the cache by a read of which the consumer takes `k` items (`none` = all) -/
+def pullNeed : Pull → Option Nat → Option Nat
+  | .eager, _ => none
+  | .onFirst, some 0 => some 0
+  | .onFirst, _ => none
+  | .never, _ => some 0
+
+/-- what a consumer that takes `k` items of a filter's result (and then leaves) has seen -/
+def consume {α} (k : Option Nat) (r : Except Err (List α)) : Except Err (List α) :=
+  match r, k with
+  | .ok l, some k => .ok (l.take k)
+  | r, _ => r
+
+/-- `Environments(e_0, e_1, …).cache()`: every environment behind its OWN Cache object, any number
+of downstream pipelines per environment; a read = (environment, items pulled, downstream filter) -/
+def multiCachedRun {α β} (nSlice : Nat) (envs : Nat → List α) :
+    (Nat → Option (CacheSt α)) → List (Nat × Option Nat × (List α → β)) → List β
+  | _, [] => []
+  | st, r :: rs =>
+    let o := cachedRead nSlice (envs r.1) (st r.1) r.2.1 r.2.2
+    o.2 :: multiCachedRun nSlice envs (fun e => if e = r.1 then o.1 else st e) rs
+
+/-- one read of a whole-input branch: environment, how the filter pulls, how much the consumer takes, the filter -/
+structure BranchRead (α : Type) where
+  env : Nat
+  pull : Pull
+  k : Option Nat
+  F : List α → Except Err (List α)
+
+/-- a history of reads of whole-input branches (shuffle / sort / riffle / reservoir) behind the caches -/
+def branchRun {α} (nSlice : Nat) (envs : Nat → List α) (reads : List (BranchRead α)) : List (Except Err (List α)) :=
+  multiCachedRun nSlice envs (fun _ => none)
+    (reads.map (fun r => (r.env, pullNeed r.pull r.k, fun xs => consume r.k (r.F xs))))
+
+/-- what such a read must deliver: the filter on ALL interactions of its own environment (cut after
+`k`); a read that never starts the generator delivers nothing -/
+def branchSpec {α} (envs : Nat → List α) (r : BranchRead α) : Except Err (List α) :=
+  match pullNeed r.pull r.k with
+  | none => consume r.k (r.F (envs r.env))
+  | some _ => consume r.k (r.F [])
+
+/-! ## Reservoir: does the run raise?  A check on lengths only (evaluated by the driver on every case) -/
+
+/-- `resLoop` on lengths: does the loop end in `StopIteration` without raising -/
+def resLoopOk : List Step → Nat → Nat → Bool
+  | [], _, _ => false
+  | .raise _ :: _, _, _ => false
+  | .skip S slot :: steps, nRest, nRes =>
+    if nRest ≤ S then true else decide (slot < nRes) && resLoopOk steps (nRest - S - 1) nRes
+
+/-- does `Reservoir(count).filter` of `N` interactions return (given the loop's steps) -/
+def reservoirOk (count : Option Nat) (steps : List Step) (N : Nat) : Bool :=
+  match count with
+  | some 0 => true
+  | none => true
+  | some n => if N < n then true else resLoopOk steps (N - n) n
+
+/-! ## The control flow of `Environments.shuffle` (seed flattening, `n=`) and `Environments.chunk`
+
+`harness/props/c09.py::pre_build` extracts the bodies of the two methods from the CURRENT source as
+small programs: one `PLine` per statement, `(depth, kind, a, b)` with kind `assign` (a = target,
+b = expression), `if` (a = test), `else`, `return` (a = expression); expressions are `ast.unparse`
+text.  `runShuffle` INTERPRETS such a program on a call of `shuffle`; `shuffle_program_computes_seeds`
+(Props) proves that the extracted program computes `shuffleSeeds` for every call. -/
+
+abbrev PLine := Nat × String × String × String
+
+/-- one positional / list element handed to `shuffle`: a seed or a (one level) nested sequence of seeds -/
+inductive SeedArg
+  | num (v : Nat)
+  | seq (vs : List Nat)
+deriving DecidableEq, Repr
+
+/-- `pipes.Flatten` on the one row: sequences among the elements are spliced in (one level) -/
+def flatRow : List SeedArg → List Nat
+  | [] => []
+  | .num v :: r => v :: flatRow r
+  | .seq vs :: r => vs ++ flatRow r
+
+/-- the call forms of `Environments.shuffle` -/
+inductive ShuffleCall
+  | n (k : Nat)                  -- shuffle(n=k)
+  | kwInt (v : Nat)              -- shuffle(seed=v) / shuffle(seeds=v)
+  | kwRow (row : List SeedArg)   -- shuffle(seeds=[…]) / shuffle(seed=[…])
+  | args (row : List SeedArg)    -- shuffle(a, b, …), shuffle() = args []
+deriving DecidableEq, Repr
+
+/-- the seeds `shuffle` builds one `Shuffle` filter for, in order (MODEL) -/
+def shuffleSeeds : ShuffleCall → List Nat
+  | .n k => if k = 0 then [1] else List.range k
+  | .kwInt v => [v]
+  | .kwRow row => if (flatRow row).isEmpty then [1] else flatRow row
+  | .args row => if (flatRow row).isEmpty then [1] else flatRow row
+
+/-- the value of the local `seeds` while the program runs -/
+inductive PVal
+  | int (v : Nat)
+  | row (vs : List Nat)
+deriving DecidableEq, Repr
+
+def evalTest (c : ShuffleCall) (seeds : Option PVal) (t : String) : Option Bool :=
+  if t = "kwargs and 'n' in kwargs" then some (match c with | .n _ => true | _ => false)
+  else if t = "seeds != 0 and (not seeds)" then
+    match seeds with
+    | some (.row vs) => some vs.isEmpty       -- an empty sequence is falsy and `!= 0`
+    | some (.int _) => some false             -- 0: `seeds != 0` fails; otherwise truthy
+    | none => none
+  else if t = "isinstance(seeds, int)" then
+    match seeds with
+    | some (.int _) => some true
+    | some (.row _) => some false
+    | none => none
+  else none
+
+def evalExpr (c : ShuffleCall) (seeds : Option PVal) (e : String) : Option PVal :=
+  if e = "range(kwargs['n'])" then (match c with | .n k => some (.row (List.range k)) | _ => none)
+  else if e = "flat(kwargs.get('seed', kwargs.get('seeds', args)))" then
+    match c with
+    | .kwInt v => some (.int v)
+    | .kwRow r => some (.row (flatRow r))
+    | .args r => some (.row (flatRow r))
+    | .n _ => none
+  else if e = "[1]" then some (.row [1])
+  else if e = "[seeds]" then (match seeds with | some (.int v) => some (.row [v]) | _ => none)
+  else none
+
+/-- the tail every `shuffle` program must end with: one `Shuffle(seed)` per seed through `self.filter`
+(environments × filters, `product_member_order`), stable sort by seed (`shuffle_member_order`) -/
+def shuffleTail : List PLine := [
+  (0, "assign", "shuffled", "self.filter([Shuffle(seed) for seed in seeds])"),
+  (0, "assign", "ordered", "sorted(shuffled, key=lambda env: env.params.get('shuffle_seed', 0))"),
+  (0, "return", "Environments(ordered)", "")]
+
+/-- interpreter: runs the statements that compute `seeds`; at `shuffleTail` the result is `seeds` -/
+def runShuffle (c : ShuffleCall) : Nat → List PLine → Option PVal → Option (List Nat)
+  | 0, _, _ => none
+  | fuel+1, prog, seeds =>
+    if prog = shuffleTail then (match seeds with | some (.row vs) => some vs | _ => none)
+    else match prog with
+    | [] => none
+    | (d, kind, a, b) :: rest =>
+      if kind = "assign" then
+        if a = "flat" then (if b = "lambda a: next(pipes.Flatten().filter([a]))" then runShuffle c fuel rest seeds else none)
+        else if a = "seeds" then (match evalExpr c seeds b with | some v => runShuffle c fuel rest (some v) | none => none)
+        else none
+      else if kind = "if" then
+        match evalTest c seeds a with
+        | none => none
+        | some true =>
+          -- run the body (the deeper lines that follow), skip an `else` branch at this depth
+          let body := rest.takeWhile (fun l => decide (d < l.1))
+          let after := rest.dropWhile (fun l => decide (d < l.1))
+          let after' := match after with
+            | (d', k', _, _) :: r => if d' = d ∧ k' = "else" then r.dropWhile (fun l => decide (d < l.1)) else after
+            | [] => []
+          runShuffle c fuel (body ++ after') seeds
+        | some false =>
+          let after := rest.dropWhile (fun l => decide (d < l.1))
+          match after with
+          | (d', k', _, _) :: r => if d' = d ∧ k' = "else" then runShuffle c fuel r seeds else runShuffle c fuel after seeds
+          | [] => runShuffle c fuel [] seeds
+      else none
+
+/-- the program the model assumes for `Environments.shuffle` -/
+def shuffleProgram : List PLine := [
+  (0, "assign", "flat", "lambda a: next(pipes.Flatten().filter([a]))"),
+  (0, "if", "kwargs and 'n' in kwargs", ""),
+  (1, "assign", "seeds", "range(kwargs['n'])"),
+  (0, "else", "", ""),
+  (1, "assign", "seeds", "flat(kwargs.get('seed', kwargs.get('seeds', args)))"),
+  (0, "if", "seeds != 0 and (not seeds)", ""),
+  (1, "assign", "seeds", "[1]"),
+  (0, "if", "isinstance(seeds, int)", ""),
+  (1, "assign", "seeds", "[seeds]")] ++ shuffleTail
+
+/-- the filters `Environments.chunk(cache)` appends to every environment (MODEL) -/
+def chunkFilters (cache : Bool) : List String := if cache then ["Chunk", "Cache"] else ["Chunk"]
+
+/-- the program the model assumes for `Environments.chunk` -/
+def chunkProgram : List PLine := [
+  (0, "assign", "envs", "Environments([Pipes.join(env, Chunk()) for env in self._envs])"),
+  (0, "return", "envs.cache() if cache else envs", "")]
+
+/-- interpreter of a `chunk` program: which filters follow each environment -/
+def runChunk (cache : Bool) (prog : List PLine) : Option (List String) :=
+  match prog with
+  | [(0, "assign", "envs", e), (0, "return", r, "")] =>
+    if e = "Environments([Pipes.join(env, Chunk()) for env in self._envs])" then
+      if r = "envs.cache() if cache else envs" then some (if cache then ["Chunk", "Cache"] else ["Chunk"])
+      else if r = "envs" then some ["Chunk"]
+      else if r = "envs.cache()" then some ["Chunk", "Cache"]
+      else none
+    else none
+  | _ => none
+
+/-- reads of an environment behind `chunk(cache)` -/
+def chunkRun {α} (cache : Bool) (nSlice : Nat) (items : List α) (reads : List (Option Nat)) : List (List α) :=
+  if cache then cacheRun nSlice items none reads else reads.map (readSpec items)
+
 /-! ## The `Environments.<shortcut>` → filter-class(arguments) table the model assumes
 
 `harness/props/c09.py::pre_build` extracts the same table from the CURRENT coba source into
